@@ -121,6 +121,70 @@ Theorem cleanup_exactly_once_after_last_registrant_released :
 Proof. exact cleanup_after_last_registrant_lemma. Qed.
 Print Assumptions cleanup_exactly_once_after_last_registrant_released.
 
+From Thunder Require Import Reactive.ProofsReach Reactive.ProofsClosed Reactive.ProofsSeg Reactive.ProofsRun Reactive.ProofsOwnership.
+
+(** WHO HOLDS WHAT.  [progs_ok k progs]: the compute functions only read slots that exist.
+    The dependency graph is ranked, hence acyclic, in every reachable state: addOut attaches a dependency only
+    to a computation that is still being worked for, and such a computation has no dependant yet — it is in no
+    cache and nobody is about to link it below a parent (Reactive/ProofsRun.v). *)
+Theorem dependency_graph_is_ranked :
+  forall k progs s, progs_ok k progs -> reachable (init k progs) s ->
+  exists rk : nat -> nat, forall n m, In m (n_out (getN s n)) -> rk n < rk m.
+Proof. intros k progs s Pk R. exact (proj2 (proj2 (reachable_graph k progs s Pk R))). Qed.
+Print Assumptions dependency_graph_is_ranked.
+
+(** Ownership, in every reachable state: a computation node (no release handler, no timer) that has not been
+    released and was never used as a dependency is the current computation of a rerunner, or a goroutine is about
+    to publish it (FRunEnd), store it in the cache (FCacheSet), link it below its parent (FCacheLink) or release
+    it (FRelEnter / FRelMark).  (A node that was used as a dependency is covered by the Refcount invariant.) *)
+Theorem unreleased_computation_has_a_holder :
+  forall k progs s c, reachable (init k progs) s ->
+  c < length (s_nodes s) -> n_hrel (getN s c) = None -> n_timer (getN s c) = 0 ->
+  n_rel (getN s c) = false -> n_had (getN s c) = false ->
+  (exists r, r < length (s_rrs s) /\ r_comp (getr s r) = Some c) \/ (exists f, In f (all_frames s) /\ holds c f).
+Proof. intros k progs s c R. exact (reachable_own k progs s R c). Qed.
+Print Assumptions unreleased_computation_has_a_holder.
+
+(** At quiescence every node that has not been released — a computation, or anything that was used as a
+    dependency — is, through a chain of dependants, a dependency of the current computation of a rerunner that
+    has not been stopped. *)
+Theorem every_unreleased_node_is_held_by_a_live_rerunner :
+  forall k progs s, progs_ok k progs -> reachable (init k progs) s -> quiescent s ->
+  forall x, x < length (s_nodes s) -> n_rel (getN s x) = false ->
+    n_had (getN s x) = true \/ (n_hrel (getN s x) = None /\ n_timer (getN s x) = 0) ->
+    exists r top, r < length (s_rrs s) /\ r_stop (getr s r) = false /\ r_comp (getr s r) = Some top /\ reach (s_nodes s) x top.
+Proof. exact held_by_live_lemma. Qed.
+Print Assumptions every_unreleased_node_is_held_by_a_live_rerunner.
+
+(** A STOPPED RERUNNER HOLDS NOTHING AT QUIESCENCE.  It has no computation (Stop handed it to release()); every
+    node that is still unreleased is held by the current computation of ANOTHER rerunner, one that has not been
+    stopped; every resource that was depended upon is released with exactly one Cleanup call, or is a dependency
+    of such a computation.  So whatever only the stopped rerunner's computations (current, superseded, cached)
+    depended on has been released, and its Cleanup callback — the timer.Stop of InvalidateAfter included — ran
+    exactly once. *)
+Theorem stopped_rerunner_holds_nothing_at_quiescence :
+  forall k progs s r0, progs_ok k progs -> reachable (init k progs) s -> quiescent s -> r_stop (getr s r0) = true ->
+  r_comp (getr s r0) = None /\
+  (forall x, x < length (s_nodes s) -> n_rel (getN s x) = false ->
+     n_had (getN s x) = true \/ (n_hrel (getN s x) = None /\ n_timer (getN s x) = 0) ->
+     exists r top, r <> r0 /\ r_stop (getr s r) = false /\ r_comp (getr s r) = Some top /\ reach (s_nodes s) x top) /\
+  (forall n, n_had (getN s n) = true -> n_hrel (getN s n) <> None ->
+     (n_rel (getN s n) = true /\ n_cln (getN s n) = 1) \/
+     exists r top, r <> r0 /\ r_stop (getr s r) = false /\ r_comp (getr s r) = Some top /\ reach (s_nodes s) n top).
+Proof. exact stopped_holds_nothing_lemma. Qed.
+Print Assumptions stopped_rerunner_holds_nothing_at_quiescence.
+
+(** ... and when every rerunner has been stopped, every computation and every node that was depended upon is
+    released, each Cleanup callback having run exactly once. *)
+Theorem all_stopped_everything_released :
+  forall k progs s, progs_ok k progs -> reachable (init k progs) s -> quiescent s ->
+  (forall r, r < length (s_rrs s) -> r_stop (getr s r) = true) ->
+  forall n, n < length (s_nodes s) ->
+    (n_had (getN s n) = true \/ (n_hrel (getN s n) = None /\ n_timer (getN s n) = 0)) ->
+    n_rel (getN s n) = true /\ (n_hrel (getN s n) <> None -> n_cln (getN s n) = 1).
+Proof. exact all_stopped_all_released_lemma. Qed.
+Print Assumptions all_stopped_everything_released.
+
 From Thunder Require Import Reactive.Measure Reactive.ProofsCacheKeys.
 
 (** The cache of a rerunner (cache.computations, rerunner.go:72-76) holds at most one memoised computation per
@@ -178,3 +242,22 @@ Proof.
   - vm_compute. discriminate.
   - vm_compute. intros m H. repeat (destruct H as [<-|H]; [reflexivity|]). contradiction.
 Qed.
+
+
+(** non-vacuity of the ownership theorems.  Rerunner 0 reads slot 0 through a cached child and slot 1 directly,
+    rerunner 1 reads slot 0.  After Stop of rerunner 0, at quiescence: it holds no computation; its computation
+    (node 2), its cached child (node 3) and the resource only it used (node 1, slot 1) are released, node 1 with
+    exactly one Cleanup; the resource of slot 0 (node 0) is still held: its dependant is node 4, the current
+    computation of rerunner 1.  After Stop of rerunner 1 as well, node 0 and node 4 are released too. *)
+Definition ex_own_progs : list (list op * bool) := [([OCache 0 [ODep 0]; ODep 1], true); ([ODep 0], true)].
+Definition ex_own1 : state := run_to_quiet 400 (init 2 ex_own_progs).
+Definition ex_own2 : state := match step ex_own1 (LStop 0) with Some s => run_to_quiet 400 s | None => ex_own1 end.
+Definition ex_own3 : state := match step ex_own2 (LStop 1) with Some s => run_to_quiet 400 s | None => ex_own2 end.
+Example ex_stopped_holds_nothing :
+  quiescent ex_own2 /\ r_stop (getr ex_own2 0) = true /\ r_comp (getr ex_own2 0) = None /\
+  map (fun x => n_rel x) (s_nodes ex_own2) = [false; true; true; true; false; false] /\ n_cln (getN ex_own2 1) = 1 /\
+  n_out (getN ex_own2 0) = [4] /\ r_comp (getr ex_own2 1) = Some 4 /\ r_stop (getr ex_own2 1) = false /\
+  quiescent ex_own3 /\ map (fun x => n_rel x) (s_nodes ex_own3) = [true; true; true; true; true; false; false] /\ n_cln (getN ex_own3 0) = 1.
+Proof. vm_compute. repeat split. Qed.
+Example ex_own_progs_ok : progs_ok 2 ex_own_progs.
+Proof. intros p [<-|[<-|[]]]; reflexivity. Qed.
